@@ -202,6 +202,10 @@ var templates = []func(u string) string{
 			"rn" + u + " = import(\"math/rand\")\nfunc() {\nx = rn" + u + ".Intn(10)\nrec(x >= 0 && x < 10)\ny = rn" + u + ".Float64()\nrec(y < 1)\n}()"
 	},
 	func(u string) string {
+		// the nil a function returns after it caught an error is an ordinary value of this run
+		return "func cf" + u + "() { try { nosuch" + u + " } catch ce" + u + " { } }\ncv" + u + " = cf" + u + "()\nrec(cv" + u + ")\ncp" + u + " = &cv" + u + "\n*cp" + u + " = base\nrec(cv" + u + ")\ntry { nosuch" + u + " } catch cg" + u + " { }\nrec(cf" + u + "())"
+	},
+	func(u string) string {
 		// a variable the host bound to nil is a variable like any other: writing through its address changes it and nothing else
 		return "rec(hnil)\nhp" + u + " = &hnil\n*hp" + u + " = base\nrec(hnil)\nhq" + u + " = nil\nrec(hq" + u + ")\nrec(nil)"
 	},
@@ -715,6 +719,13 @@ func typeBindings() string {
 	fresh.Define("y", nil)
 	if v, err := vm.Execute(fresh, &vm.Options{}, "y"); err != nil || v != nil {
 		return fmt.Sprintf("a fresh environment whose host bound y to nil reads y as %#v (error %v) after a script of another environment wrote through the address of its own host-bound nil", v, err)
+	}
+	// ... nor is the nil a run is left with after a caught error
+	ce := env.NewEnv()
+	ce.Define("five", int64(5))
+	vm.Execute(ce, &vm.Options{}, "func f() { try { nosuch } catch e { } }\nv = f()\np = &v\n*p = five")
+	if v, err := vm.Execute(env.NewEnv(), &vm.Options{}, "try { zzz } catch e { }"); err != nil || v != nil {
+		return fmt.Sprintf("a fresh environment evaluates `try { zzz } catch e { }` to %#v (error %v) after a script of another environment wrote through the address of a variable holding the result of such a statement", v, err)
 	}
 	own := env.NewEnv()
 	own.Define("w0", float64(1.5))
